@@ -185,3 +185,13 @@ Example compat_args_example_restrict :
   = Ok [ [47;120;47;98;105;103;98;101;100;116;111;98;101;100];
          s_chrom_n ++ [61;99;104;114;45;99;104;114;111;109]; s_start_n ++ [61;53]; s_end_n ++ [61;57]; [97]; [98] ].
 Proof. vm_compute. reflexivity. Qed.
+
+(* whole argument vectors: for each command of the generated list, called by its own (lower-case) name or as
+   `bigtools <command>`, compat_args is compat_args_vec on the whole vector *)
+Theorem compat_args_tools : forall tool args, In tool COMPAT_COMMANDS ->
+  compat_args (tool :: args) = compat_args_vec (tool :: args) /\
+  compat_args (COMPAT_MULTICALL :: tool :: args) = compat_args_vec (COMPAT_MULTICALL :: tool :: args).
+Proof.
+  intros tool args Hin. unfold COMPAT_COMMANDS in Hin. cbn [In] in Hin.
+  repeat (destruct Hin as [<-|Hin]; [split; vm_compute; reflexivity|]). destruct Hin.
+Qed.
